@@ -48,6 +48,8 @@ def call_method(I_, recv, name, args, kws, st, ctx, k, node):
       return dict_method(I_, recv, o, name, args, kws, st, ctx, k, node)
     if o.kind == "set":
       return set_method(I_, recv, o, name, args, kws, st, ctx, k, node)
+    if o.kind == "gen":
+      return gen_method(I_, recv, o, name, args, kws, st, ctx, k, node)
   if isinstance(recv, ObjDict):
     return objdict_method(I_, recv, name, args, kws, st, ctx, k, node)
   if isinstance(recv, (SBytes, bytes, str)):
@@ -111,6 +113,38 @@ def call_method(I_, recv, name, args, kws, st, ctx, k, node):
       r = st.alloc("list", list, r)
     return k(st, r)
   raise Unsupported("method %s of %s with symbolic arguments" % (name, type(recv).__name__))
+
+
+def gen_method(I_, ref, o, name, args, kws, st, ctx, k, node):
+  if name == "__iter__" and not args:
+    return k(st, ref)
+  if name == "__next__" and not args:
+    return I_.gen_resume(ref, None, None, st, ctx, k, node)
+  if name == "send" and len(args) == 1:
+    return I_.gen_resume(ref, args[0], None, st, ctx, k, node)
+  if name == "throw" and 1 <= len(args) <= 3:
+    e = args[0]
+    if isinstance(e, type) and issubclass(e, BaseException):
+      v = args[1] if len(args) > 1 else None
+      if isinstance(v, ExcVal):
+        e = v
+      else:
+        e = ExcVal(e, () if v is None else (v,), I_.where(ctx, node))
+    if not isinstance(e, ExcVal):
+      raise Unsupported("generator.throw of %r" % (e,))
+    return I_.gen_resume(ref, None, e, st, ctx, k, node)
+  if name == "close" and not args:
+    d = o.data
+    if d["state"] in ("created", "done"):
+      d["state"] = "done"
+      d["resume"] = None
+      return k(st, None)
+    # GeneratorExit is raised at the yield; the generator must end (or re-raise it)
+    def yielded(st2, v):
+      return I_.raise_exc(st2, ctx, RuntimeError, "generator ignored GeneratorExit", node)
+    c2 = ctx.replace(exc_k=lambda s, e: k(s, None) if e.cls in (GeneratorExit, StopIteration) else ctx.exc_k(s, e))
+    return I_.gen_resume(ref, None, ExcVal(GeneratorExit, (), I_.where(ctx, node)), st, c2, yielded, node)
+  raise Unsupported("generator method %s" % name)
 
 
 _MUTATORS = set("append extend insert remove pop clear sort reverse update setdefault add discard popitem "
